@@ -30,6 +30,9 @@ fn fj(f: &Frame) -> Value {
 /// Run a scripted history against the real write paths. Each acknowledged operation prints
 /// `ACK {n, effects:[{ins:frame}|{del:id}], cas:[hash..]}` after it returned.
 pub fn driver(dir: &str, history: &str) {
+    if history == "H5" {
+        return driver_dup(dir);
+    }
     let dir = PathBuf::from(dir);
     let mut n = 0u32;
     let big = history == "H2";
@@ -142,6 +145,93 @@ pub fn driver(dir: &str, history: &str) {
     std::process::exit(0);
 }
 
+/// H5: the same request arrives a second time while the first one is between the commit of its
+/// batch and its fsync (a client retrying, two clients doing the same thing): the second request is
+/// acknowledged first, and an acknowledged operation must survive a power loss whoever made it
+/// durable.
+pub fn driver_dup(dir: &str) {
+    use std::sync::Arc;
+    use xs::verif::{Sched, Who};
+    let dir = PathBuf::from(dir);
+    let mut n = 0u32;
+    let store = Store::new(dir.clone());
+    ack(&mut n, json!({"op": "open", "effects": []}));
+    let ctx = store.append(Frame::builder("xs.context", ZERO_CONTEXT).build()).unwrap();
+    let mut ctx_stored = ctx.clone();
+    ctx_stored.ttl = Some(TTL::Forever);
+    ack(&mut n, json!({"op": "register", "effects": [{"ins": fj(&ctx_stored)}]}));
+    let f1 = store.append(Frame::builder("a", ctx.id).build()).unwrap();
+    ack(&mut n, json!({"op": "append", "effects": [{"ins": fj(&f1)}]}));
+    let f2 = store.append(Frame::builder("a", ZERO_CONTEXT).build()).unwrap();
+    ack(&mut n, json!({"op": "append", "effects": [{"ins": fj(&f2)}]}));
+    let imp = Frame::builder("imp", ctx.id).id(Scru128Id::from_u128(ctx.id.to_u128() - (1u128 << 40))).build();
+    // (what, the request as a closure, its effect)
+    let rm_id = f1.id;
+    let imp2 = imp.clone();
+    let steps: Vec<(&str, Box<dyn Fn(&Store) + Send + Sync>, Value)> = vec![
+        ("remove", Box::new(move |s: &Store| s.remove(&rm_id).unwrap()), json!([{"del": f1.id.to_string()}])),
+        ("import", Box::new(move |s: &Store| s.insert_frame(&imp2).unwrap()), json!([{"ins": fj(&imp)}])),
+    ];
+    for (k, (what, req, effects)) in steps.into_iter().enumerate() {
+        let req: Arc<Box<dyn Fn(&Store) + Send + Sync>> = Arc::new(req);
+        let ctl = crate::sched::Ctl::new(&["commit.sync"]);
+        let sched: Arc<dyn Sched> = ctl.clone();
+        store.verif_hooks().install(Some(sched.clone()));
+        let who = Who::new("dup", k as u128 + 1);
+        sched.spawned(who);
+        let t1 = {
+            let store = store.clone();
+            let req = req.clone();
+            let sched = sched.clone();
+            std::thread::spawn(move || {
+                xs::verif::set_actor(Some(who));
+                (req)(&store);
+                sched.finished(who);
+            })
+        };
+        // the first request is now between commit and fsync
+        if !ctl.await_kind("dup", Duration::from_secs(20)) {
+            eprintln!("harness: the first request did not reach its commit");
+            std::process::exit(3);
+        }
+        // the duplicate, on this thread (no actor: it runs through)
+        (req)(&store);
+        ack(&mut n, json!({"op": format!("{}-duplicate", what), "effects": effects}));
+        ctl.release_all();
+        let _ = t1.join();
+        store.verif_hooks().install(None);
+        ack(&mut n, json!({"op": what, "effects": effects}));
+    }
+    let f3 = store.append(Frame::builder("ab", ZERO_CONTEXT).build()).unwrap();
+    ack(&mut n, json!({"op": "append", "effects": [{"ins": fj(&f3)}]}));
+    ack(&mut n, json!({"op": "end", "effects": []}));
+    std::process::exit(0);
+}
+
+/// Second generation: open a process-kill image, report what is there, send the request the
+/// killed process was executing once more and acknowledge it.
+pub fn driver2(dir: &str, spec_file: &str) {
+    let spec: Value = serde_json::from_str(&std::fs::read_to_string(spec_file).expect("spec file")).expect("spec json");
+    let mut n = 0u32;
+    let store = Store::new(PathBuf::from(dir));
+    let pre: Vec<Value> = store.read_sync(None, None, None).map(|f| json!({"ins": fj(&f)})).collect();
+    ack(&mut n, json!({"op": "open", "effects": pre}));
+    match spec["op"].as_str().unwrap_or("") {
+        "import" => {
+            let frame: Frame = serde_json::from_value(spec["frame"].clone()).expect("frame");
+            store.insert_frame(&frame).expect("retry import");
+            ack(&mut n, json!({"op": "retry-import", "effects": [{"ins": fj(&frame)}]}));
+        }
+        "remove" => {
+            let id: Scru128Id = spec["id"].as_str().unwrap().parse().expect("id");
+            store.remove(&id).expect("retry remove");
+            ack(&mut n, json!({"op": "retry-remove", "effects": [{"del": id.to_string()}]}));
+        }
+        other => panic!("driver2: unknown op {}", other),
+    }
+    std::process::exit(0);
+}
+
 fn base64_meta(v: &Value) -> String {
     use base64::Engine as _;
     base64::prelude::BASE64_STANDARD.encode(v.to_string())
@@ -246,10 +336,12 @@ pub fn run(tier: &str, report: &mut crate::common::Report) {
     report.cov("distinct_nontrivial", stats["distinct_recovered_states"].clone());
     report.cov("crash_points", stats["crash_points"].clone());
     report.cov("images", json!({"process_kill": kill, "power_loss": power, "torn_tail": torn}));
-    report.cov("recoveries_run", json!(kill + power + torn));
+    let g2 = stats["images_second_generation"].as_u64().unwrap_or(0);
+    report.cov("recoveries_run", json!(kill + power + torn + g2));
+    report.cov("second_generation", json!({"kill_reopen_retry_runs": stats["second_generation_runs"], "images": g2, "rule": "process-kill images taken inside an import / remove are reopened by a second traced process which sends the same request again and acknowledges it; kill and power-loss images after that acknowledgement (the unsynced journal bytes of the first process are still unsynced) must contain the operation"}));
     report.cov("syscalls_interpreted", stats["syscalls_interpreted"].clone());
     report.cov("histories", v["histories"].clone());
-    report.cov("rule", json!("for each scripted history (H1 store API, H2 same with 12 KiB metas, H3 through the HTTP routes with bodies, H4 with forced memtable flushes) the driver is traced with strace; for EVERY prefix of the store-directory mutations after the first acknowledged operation one process-kill image, and wherever the journal holds unsynced bytes one power-loss image plus torn tails of the last unsynced journal write, are materialised and opened by a fresh process; distinct_nontrivial = distinct recovered frame sets"));
+    report.cov("rule", json!("for each scripted history (H1 store API, H2 same with 12 KiB metas, H3 through the HTTP routes with bodies, H4 with forced memtable flushes, H5 a duplicate remove / import arriving while the first one is between commit and fsync) the driver is traced with strace; for EVERY prefix of the store-directory mutations after the first acknowledged operation one process-kill image, and wherever the journal holds unsynced bytes one power-loss image plus torn tails of the last unsynced journal write, are materialised and opened by a fresh process; distinct_nontrivial = distinct recovered frame sets"));
     report.cov("samples", v["samples"].clone());
     report.cov("exhaustive", json!(true));
     report.cov("interpreter_self_check", json!("the interpreted final file-system state is compared byte for byte with the real directory after each traced run"));
